@@ -109,6 +109,25 @@ def _filter_verdict(prog, text):
     return None
 
 
+class _PathModel(dict):
+    """Model of a pathlib path: an object model (hashable by identity) that also supports the `/` operator."""
+    __hash__ = object.__hash__
+
+    def __eq__(self, other):
+        return isinstance(other, _PathModel) and self["__str__"] == other["__str__"]
+
+    def __truediv__(self, other):
+        tail = other["__str__"] if isinstance(other, dict) else other
+        if not isinstance(tail, str):
+            return NotImplemented
+        return self["__fs__"].path(tail if tail.startswith("/") else self["__str__"].rstrip("/") + "/" + tail)
+
+    def __rtruediv__(self, other):
+        if not isinstance(other, str):
+            return NotImplemented
+        return self["__fs__"].path(self["__str__"] if self["__str__"].startswith("/") else other.rstrip("/") + "/" + self["__str__"])
+
+
 class FileSystemModel:
     """A dictionary path -> text standing for the file system during a model evaluation, as an ObjRunner hook: open (read / write /
     append), read, read(n), readline, readlines, iteration, write, writelines, close, pathlib.Path (name, stem, suffix, parent, is_file,
@@ -128,8 +147,9 @@ class FileSystemModel:
         from pathlib import PurePosixPath
         from ..guards import Obj
         p_ = PurePosixPath(src)
-        o = Obj({"__class__": "<path>", "__str__": src, "name": p_.name, "stem": p_.stem, "suffix": p_.suffix, "suffixes": list(p_.suffixes)})
-        if str(p_.parent) != src:
+        o = _PathModel({"__class__": "<path>", "__str__": str(p_), "name": p_.name, "stem": p_.stem, "suffix": p_.suffix, "suffixes": list(p_.suffixes),
+                        "__fs__": self})
+        if str(p_.parent) != str(p_):
             o["parent"] = self.path(str(p_.parent))
         return o
 
@@ -155,10 +175,13 @@ class FileSystemModel:
             return f
         if isinstance(call.func, ast.Attribute):
             attr = call.func.attr
-            if attr in ("read", "readline", "readlines", "write", "writelines", "close", "flush", "is_file", "exists"):
+            if attr in ("read", "readline", "readlines", "write", "writelines", "close", "flush", "is_file", "exists", "is_dir"):
                 recv = interp.ev(call.func.value)
-                if isinstance(recv, dict) and recv.get("__class__") == "<path>" and attr in ("is_file", "exists"):
-                    return recv["__str__"] in self.files
+                if isinstance(recv, dict) and recv.get("__class__") == "<path>" and attr in ("is_file", "exists", "is_dir"):
+                    here = recv["__str__"]
+                    is_file = here in self.files
+                    is_dir = any(k.startswith(here.rstrip("/") + "/") for k in self.files) or here in (".", "")
+                    return is_file if attr == "is_file" else is_dir if attr == "is_dir" else (is_file or is_dir)
                 if not (isinstance(recv, dict) and recv.get("__class__") == "<file>"):
                     return NotImplemented
                 if attr in ("close", "flush"):
@@ -709,3 +732,40 @@ def rule_hidden_chains_model(prog, rep, rid):
         if any(len(i) != 1 for i in ids) or len({i[0] for i in ids if i}) != len(ids):
             problems.append(f"chain identifiers carried by the residues and atoms of the chains: {ids} (one per chain, all different, expected)")
         r.add(f"split|{label}", not problems, f"{label}: " + ("; ".join(problems) if problems else f"chains after splitting {got}"), where)
+
+
+def rule_bundled_tables_from_package(prog, rep, rid):
+    """The lookup of the files distributed with the package (io.test_for_file and the wrappers built on it) is evaluated on a model file
+    system in which the working directory holds files named like the bundled tables, in every spelling: the path returned must be the one
+    inside the package's data directory."""
+    from ..guards import Flow
+    from ..objinterp import ObjRunner
+    r = rep.rule(rid, "bundled tables are taken from the package's data directory, whatever files the working directory holds", floor=4)
+    fn = prog.func("io.py", "test_for_file")
+    where = f"pdb2pqr/io.py:{fn.node.lineno} (test_for_file)"
+    pkg = "/site/pdb2pqr"
+    bundled = {f"{pkg}/dat/{n}": "bundled" for n in ("AMBER.DAT", "AMBER.names", "PARSE.DAT", "PARSE.names", "AA.xml", "NA.xml", "PATCHES.xml", "HYDROGENS.xml", "TOPOLOGY.xml")}
+    cases = [("test_for_file", ("amber", "DAT"), "AMBER.DAT"), ("test_for_file", ("AMBER", "names"), "AMBER.names"), ("test_for_file", ("parse", "DAT"), "PARSE.DAT"),
+             ("test_dat_file", ("amber",), "AMBER.DAT"), ("test_names_file", ("PARSE",), "PARSE.names"), ("test_xml_file", ("AA",), "AA.xml"),
+             ("test_xml_file", ("PATCHES",), "PATCHES.xml"), ("test_for_file", ("HYDROGENS", "xml"), "HYDROGENS.xml")]
+    for fname, args, want in cases:
+        if f"io.py::{fname}" not in prog.funcs:
+            continue
+        stem, _, suf = want.partition(".")
+        local = {}
+        for a in (stem, stem.upper(), stem.lower()):
+            for b in ("", "." + suf, "." + suf.upper(), "." + suf.lower()):
+                local[a + b] = "a file of the working directory"
+                local["./" + a + b] = "a file of the working directory"
+        fs = FileSystemModel({**bundled, **local})
+        run = ObjRunner(prog, "io.py", extra_hook=fs.hook)
+        run.module_env("io.py")["__file__"] = f"{pkg}/io.py"
+        key = f"lookup|{fname}({', '.join(map(repr, args))})"
+        try:
+            got = run.call_function("io.py", fname, *args)
+        except Flow as fl:
+            r.bad(key, f"stops with {fl.value} although {pkg}/dat/{want} exists", where)
+            continue
+        text = got["__str__"] if isinstance(got, dict) else got
+        r.add(key, text == f"{pkg}/dat/{want}", f"with files named like {want} (all spellings) in the working directory the lookup returns {text!r}; "
+              f"expected the bundled {pkg}/dat/{want}", where)
